@@ -1072,7 +1072,11 @@ func runHeapT[T any](c HeapCase, checkPos bool, o *vk.Obs, kit elem.Kit[T]) (*he
 	r.setCmp(c.Desc)
 	var init []Elem
 	if c.UseData {
-		buf := make([]T, 0, len(c.Data)+c.Spare%8)
+		spare := c.Spare % 8
+		if c.Spare >= 1000 { // the documented preallocation idiom: a buffer with room for tens of thousands
+			spare = min(c.Spare, 140000)
+		}
+		buf := make([]T, 0, len(c.Data)+spare)
 		for i, v := range c.Data {
 			e := Elem{V: v, ID: -(i + 1)}
 			x := kit.Make(e.V, e.ID)
